@@ -83,6 +83,10 @@ impl PathNodeContext {
     pub fn next_key(&mut self) -> usize {
         self.key_mgr.next_key()
     }
+
+    pub fn on_key_seen(&mut self, key: usize) {
+        self.key_mgr.on_key_seen(key)
+    }
 }
 
 #[cfg(test)]
